@@ -30,7 +30,8 @@ RULE = ("schedules of 1-8 queued requests (GET/POST with bodies, unique path and
         "body) and clients constructed with method HEAD/POST; requests with 0-3 query arguments (as qargs or written into the path) whose "
         "redirect Locations re-assign none / some / all of the keys, also over multi-hop chains; requests queued through Client.request WITHOUT qargs (default = copy of the requester's) with and without "
         "a query in their path, several queued before the earlier one is built; payload kinds per request (data= JSON, fargs= form, body= bytes, none) on "
-        "GET/POST/PUT/PATCH/DELETE with explicit or default headers.  A case is non-trivial when >= 3 requests were queued and some reply was delayed, "
+        "GET/POST/PUT/PATCH/DELETE with explicit or default headers; reconnectable connectors (reconnect timer 1-12 passes of virtual "
+        "time) against servers that close after replies, requests queued and popped during the cutoff, redirects followed across a close.  A case is non-trivial when >= 3 requests were queued and some reply was delayed, "
         "fragmented or a redirect")
 MODELLED = ["response parsing (real Respondent) is abstracted to 'a complete reply with status s and Location l was "
             "consumed in this pass'; request building (real Requester) to the path that appears on the wire",
@@ -369,9 +370,11 @@ def run_impl(case):
     net = _NET = Net(case["replies"])
     tcp.Client, tcp.ClientTls = FakeClient, FakeTls
     try:
-        tymist = tyming.Tymist(tyme=0.0)
+        tymist = tyming.Tymist(tyme=0.0, tock=1.0)   # virtual time: one tock per service pass
         cls = FakeTls if case.get("https") else FakeClient
-        connector = cls(tymth=tymist.tymen(), ha=HOSTS[0])
+        rc = case.get("reconnect")   # reconnect tymeout in passes; None: connector not reconnectable
+        kwc = {"reconnectable": True, "tymeout": float(rc)} if rc else {}
+        connector = cls(tymth=tymist.tymen(), ha=HOSTS[0], **kwc)
         client = clienting.Client(connector=connector, redirectable=case.get("redirectable", True),
                                   method=case.get("cmethod", "GET"))
         client.reopen()
@@ -404,6 +407,7 @@ def run_impl(case):
                 continue
             net.tick()
             before = (len(client.responses), len(client.redirects))
+            conn0, nsock0, cut0 = client.connector, net.nconn, bool(client.connector.cutoff)
             try:
                 client.service()
             except Exception as ex:
@@ -413,7 +417,13 @@ def run_impl(case):
             after = (len(client.responses), len(client.redirects))
             while len(bodies) < len(client.responses):  # the bytearray is shared with the respondent: copy at arrival
                 bodies.append(bytes(client.responses[len(bodies)]["body"]).hex())
-            trace.append([after != before, bool(client.waited), len(client.requests), after[0], after[1]])
+            # the reconnect timer fired in this pass: same connector object, new socket
+            # (sockets opened in this pass, minus the one of a connector that redirect() created)
+            refired = (net.nconn - nsock0 - (0 if client.connector is conn0 else 1)) > 0
+            # the connector read the server's close in this pass (same connector object)
+            cutnow = client.connector is conn0 and bool(client.connector.cutoff) and (refired or not cut0)
+            trace.append([after != before, bool(client.waited), len(client.requests), after[0], after[1], refired, cutnow])
+            tymist.tick()
         entries = []
         for i, r in enumerate(client.responses):
             hist = [[h["status"], h["request"].get("tag")] for h in r.get("redirects", [])]
@@ -430,7 +440,8 @@ def run_impl(case):
         return {"snaps": {str(k): v for k, v in snaps.items()}, "ctsnaps": {str(k): v for k, v in ctsnaps.items()},
                 "trace": trace, "entries": entries, "wire": wire, "escaped": escaped, "unsent": len(client.connector.txbs),
                 "final": [bool(client.waited), len(client.requests), len(client.redirects)],
-                "conn_https": isinstance(client.connector, tcp.ClientTls), "replies_used": net.k}
+                "conn_https": isinstance(client.connector, tcp.ClientTls), "replies_used": net.k,
+                "conn_reconnectable": bool(client.connector.reconnectable and client.connector.tymeout > 0.0)}
     finally:
         tcp.Client, tcp.ClientTls = saved
         _NET = None
@@ -462,7 +473,7 @@ def oracle(case, obs):
             qlen_prev += 1
             continue
         try:
-            changed, waited, qlen, nresp, nredir = next(it)
+            changed, waited, qlen, nresp, nredir = next(it)[:5]
         except StopIteration:
             break
         if qlen < qlen_prev:  # a request was popped in this pass
@@ -560,7 +571,8 @@ def oracle(case, obs):
         return (f"after draining: {len(obs['entries'])} of {len(tags)} requests have a response entry, waited={waited}, "
                 f"{qlen} still queued, {obs['unsent']} request bytes unsent"
                 + ("; a server closed its connection and every request that reached the wire was answered"
-                   if closed and sum(1 for t in obs["trace"] if t[0]) == len(obs["wire"]) else ""))
+                   if closed and not obs.get("conn_reconnectable") and sum(1 for t in obs["trace"] if t[0]) == len(obs["wire"])
+                   else ""))
     # https never downgraded
     if case.get("https"):
         if any(not w[1] for w in obs["wire"]) or not obs["conn_https"]:
@@ -657,6 +669,13 @@ def directed():
         # Client.request WITHOUT qargs, several queued before anything is built, earlier paths carry a query
         {"events": [["enq", 1, "GET", "none", [[0, 1]]], ["enq", 2, "GET", "none"], ["enq", 3, "GET", "none", [[1, 2]]], ["enq", 4, "GET", "none"]],
          "replies": [{}, {}, {}, {}]},
+        # server closes after a reply; reconnectable connector (timer in passes): requests queued/popped during the cutoff
+        # are sent after the reconnect; a redirect follow-up across a close too
+        {"reconnect": 6, "events": _sched([1, 2, 3]), "replies": [{"status": 200, "close": True}, {"status": 200}, {"status": 200}], "drain": 30},
+        {"reconnect": 3, "events": [["enq", 1, "GET"], ["pass"], ["pass"], ["pass"], ["pass"], ["pass"], ["enq", 2, "POST"], ["enq", 3, "GET"]],
+         "replies": [{"status": 404, "close": True}, {"status": 200, "close": True}, {"status": 200}], "drain": 30},
+        {"reconnect": 5, "events": _sched([1, 2]), "replies": [{"status": 302, "loc": rel, "close": True}, {"status": 200}, {"status": 200}], "drain": 30},
+        {"reconnect": 4, "events": _sched([1, 2]), "replies": [{"status": 200, "framing": "close"}, {"status": 200, "frags": 2, "framing": "chunked"}], "drain": 30},
         # payload kinds over one client's history: data= / fargs= followed by body-only and payload-less non-GET requests
         {"events": [["enq", 1, "POST", [], [], "data", True], ["enq", 2, "POST", [], [], "body", True], ["enq", 3, "DELETE", [], [], "none", True],
                     ["enq", 4, "GET", [], [], "none", True]], "replies": [{}, {}, {}, {}]},
@@ -738,6 +757,12 @@ def gen_case(rng):
         case["redirectable"] = False
     if rng.random() < 0.2:
         case["cmethod"] = rng.choice(["HEAD", "POST", "HEAD"])
+    if rng.random() < 0.35:   # reconnectable connector; closing servers are then much more frequent
+        case["reconnect"] = rng.choice([1, 2, 4, 7, 12])
+        for r in replies:
+            if rng.random() < 0.3:
+                r["close"] = True
+        case["drain"] += 40
     return case
 
 
@@ -813,6 +838,9 @@ def to_coq(case, obs):
         if ti >= len(trace):
             break
         changed = trace[ti][0]
+        refired = coq_bool(bool(trace[ti][5]) if len(trace[ti]) > 5 else False)
+        if len(trace[ti]) > 6 and trace[ti][6]:
+            evs.append("HttpClient.Eof")
         ti += 1
         if changed:
             r = case["replies"][k] if k < len(case["replies"]) else {"status": 200}
@@ -824,11 +852,11 @@ def to_coq(case, obs):
                     coq_option(loc.get("host"), coq_N, "N"), coq_bool(bool(loc.get("https"))), _q(loc.get("q") or []))
             verb = obs["wire"][k][5] if k < len(obs["wire"]) else "GET"
             closes = closes_after(r, verb)
-            evs.append("(HttpClient.Pass (Some {| HttpClient.rp_id := %s; HttpClient.rp_status := %s; HttpClient.rp_loc := %s; "
+            evs.append("(HttpClient.Pass " + refired + " (Some {| HttpClient.rp_id := %s; HttpClient.rp_status := %s; HttpClient.rp_loc := %s; "
                        "HttpClient.rp_close := %s |}))" % (coq_N(k), coq_N(r.get("status", 200)), l, coq_bool(closes)))
             k += 1
         else:
-            evs.append("(HttpClient.Pass None)")
+            evs.append("(HttpClient.Pass " + refired + " None)")
     tr = coq_list(["(%s, %s, %s, %s)" % (coq_bool(t[1]), coq_N(t[2]), coq_N(t[3]), coq_N(t[4])) for t in trace],
                   "bool * N * N * N")
     ents = coq_list(["{| HttpClient.e_status := %s; HttpClient.e_tag := %s; HttpClient.e_errored := %s; HttpClient.e_history := %s; "
@@ -846,7 +874,7 @@ def to_coq(case, obs):
                    "N * option HttpClient.qargs")
     pays = coq_list(["(%s, %s)" % (coq_N(ev[1]), _pay(pay_of(ev))) for ev in case["events"] if ev[0] == "enq"], "N * HttpClient.payload")
     pqs = coq_list(["(%s, %s)" % (coq_N(ev[1]), _q(ev_pathq(ev))) for ev in case["events"] if ev[0] == "enq"], "N * HttpClient.qargs")
-    return ("{| HttpClient.c_https := %s; HttpClient.c_redirectable := %s; HttpClient.c_cmethod := %s; HttpClient.c_methods := %s; "
+    return ("{| HttpClient.c_reconn := " + coq_bool(bool(case.get("reconnect"))) + "; HttpClient.c_https := %s; HttpClient.c_redirectable := %s; HttpClient.c_cmethod := %s; HttpClient.c_methods := %s; "
             "HttpClient.c_qargs := %s; HttpClient.c_pathq := %s; HttpClient.c_pays := %s; "
             "HttpClient.c_events := %s; HttpClient.c_trace := %s; "
             "HttpClient.c_entries := %s; HttpClient.c_wire := %s |}" % (
